@@ -239,7 +239,10 @@ class Headers(CaseInsensitiveDict):
                 yield (str(k), str(v))
 
     def __bytes__(self):
-        return str(self).encode('latin1')
+        # header fields are latin-1 on the wire; code points beyond it (the
+        # parser's unicode_escape decoding produces them) are sent in the
+        # escaped form the parser decodes instead of raising
+        return str(self).encode('latin1', 'backslashreplace')
 
     def append(self, key, value):
         """
